@@ -176,6 +176,11 @@ type DBCounts struct {
 	WaitRemove  int // managers parked in the delayed-removal wheel
 	Values      int // keys that still carry a value
 	Detail      string
+	// structural anomalies of the timer tables: a bucket queue object reachable twice (two deadlines, both
+	// tables, or a table and the free pool), a bucket whose own deadline differs from the one it is filed
+	// under, a live request filed under a deadline that is not its own
+	Misfiled       int
+	MisfiledDetail string
 }
 
 type Snapshot struct {
